@@ -193,3 +193,35 @@ func Harness_C04_decode() {
 	want[0] = b[0]
 	vAssert(bytes.Equal(b, want), "accepted leaf_input is exactly an RFC encoding (no trailing bytes)")
 }
+
+// Harness_C04_decodeTwice: decoding is a function of the bytes only. Two leaves (either entry
+// type each) are decoded one after the other into the same destination variable; the value kept
+// from the first decode is unaffected by the second one (it still re-encodes to the first
+// leaf's bytes and hashes to its leaf hash), also when the second input is truncated.
+//
+//verif:opt maxpaths=4000 reach=kept
+func Harness_C04_decodeTwice() {
+	mk := func(tag string) []byte {
+		ts := vU64(tag + ".timestamp")
+		if vChoice(tag+".precert", 2) == 1 {
+			return rfcMerkleTreeLeaf(ts, true, nil, vBytes(tag+".ikh", 32), vBytes(tag+".tbs", 1), nil)
+		}
+		return rfcMerkleTreeLeaf(ts, false, vBytes(tag+".cert", 1), nil, nil, nil)
+	}
+	a, b := mk("first"), mk("second")
+	if vChoice("second-truncated", 2) == 1 {
+		b = b[:len(b)-1]
+	}
+	var leaf MerkleTreeLeaf
+	rest, err := tls.Unmarshal(a, &leaf)
+	vAssert(err == nil && len(rest) == 0, "the first leaf decodes")
+	first := leaf
+	h1, err := LeafHashForLeaf(&first)
+	vAssert(err == nil, "leaf hash of the first leaf")
+	_, _ = tls.Unmarshal(b, &leaf)
+	back, err := tls.Marshal(first)
+	vAssert(err == nil && bytes.Equal(back, a), "the value decoded first still encodes to the first leaf's bytes after the destination was decoded into again")
+	h2, err := LeafHashForLeaf(&first)
+	vAssert(err == nil && h1 == h2, "and still has the first leaf's hash")
+	vReach("kept")
+}
